@@ -11,6 +11,7 @@ package vsync
 
 import (
 	"bytes"
+	"errors"
 	"fmt"
 	"io"
 	"runtime"
@@ -472,17 +473,26 @@ func scribble(v any) {
 	case interface{ Bytes() []byte }:
 		fill(t.Bytes())
 	case interface{ Reset(io.Reader) }: // *bufio.Reader: later reads through it see its next owner's data
-		t.Reset(poisonSource{})
+		t.Reset(&poisonSource{left: 512})
 	case interface{ Reset(io.Writer) }: // *bufio.Writer: later writes go elsewhere
 		t.Reset(io.Discard)
 	}
 }
 
-type poisonSource struct{}
+// poisonSource delivers a bounded amount of poison and then fails: an endless source would let a caller that
+// reads "until the connection closes" fill the memory.
+type poisonSource struct{ left int }
 
-func (poisonSource) Read(b []byte) (int, error) {
-	for i := range b {
+func (p *poisonSource) Read(b []byte) (int, error) {
+	if p.left <= 0 {
+		return 0, errUseAfterPut
+	}
+	n := min(len(b), p.left)
+	for i := 0; i < n; i++ {
 		b[i] = 0xDB
 	}
-	return len(b), nil
+	p.left -= n
+	return n, nil
 }
+
+var errUseAfterPut = errors.New("read through a pooled reader after it was returned to its pool")
